@@ -43,11 +43,28 @@ def cmd_golden(args):
 
 def cmd_lint(args):
     bad = 0
+    fresh = '--fresh' in args
+    args = [a for a in args if a != '--fresh']
     for name in (args or all_units()):
         u = U.Unit(name)
         for p in U.lint_unit(u):
             print('%s: %s' % (name, p))
             bad += 1
+        if fresh:
+            # development aid: does the extraction of the tree at VERIF_REPO still equal the committed golden extraction?
+            # (it must on the pinned tree -- a difference means a rewrite rule changed its output)
+            golden = u.load_golden()
+            for r in u.regions():
+                try:
+                    cur, _, _ = r.extract_current(U.REPO)
+                except Exception as e:
+                    print('%s: %s: extraction failed: %s' % (name, r.key, e))
+                    bad += 1
+                    continue
+                g = golden.get(r.key)
+                if g is None or g['lines'] != cur:
+                    print('%s: %s: current extraction differs from the golden extraction' % (name, r.key))
+                    bad += 1
     return 1 if bad else 0
 
 
